@@ -321,8 +321,42 @@ def stage_projects(res, pr, tier, seed):
                 spec_bad.append((pj, "full pipeline: cut fixture gives %s %s, the original %s %s" % (sx, dx.get("sha", C.unhx(dx.get("msg", "-"))[:60]), sy, dy.get("sha", ""))))
             elif sx == "ok":
                 res.nontrivial(("fixture", pj[0][1][:200]))
+    # ---- D: several included files of ONE shape (bodies at the same byte offsets, different text), full pipeline against
+    # the spliced single file: whatever is remembered about a body must be remembered per file
+    twins, twin_wholes = [], []
+    slots = [("POST /p%d\n", "  INCLUDE parts/f%d.jst\n  200 any\n", "Request\n  {\n    \"k%d\": %d\n  }\n"),
+             ("GET /p%d\n", "  INCLUDE parts/f%d.jst\n  200 any\n", "Query q\n  {\n    \"k%d\": %d\n  }\n"),
+             ("GET /p%d\n", "  200\n    INCLUDE parts/f%d.jst\n", "Headers\n  {\n    \"k%d\": %d\n  }\nBody any\n"),
+             ("GET /p%d\n", "  200\n    INCLUDE parts/f%d.jst\n", "Body\n  {\n    \"k%d\": %d\n  }\n"),
+             ("URL /p%d\n  Protocol json-rpc-2.0\n  Method m\n", "    INCLUDE parts/f%d.jst\n", "Params\n  {\n    \"k%d\": %d\n  }\nResult\n  [%d]\n"),
+             ("", "INCLUDE parts/f%d.jst\n", "TYPE @t%d\n  {\n    \"k\": %d\n  }\n"),
+             ("", "INCLUDE parts/f%d.jst\n", "ENUM @e%d\n  [%d]\n")]
+    for head, incl, part in slots:
+        for n in (2, 3):
+            main, whole, files = J, J, []
+            for i in range(n):
+                h = (head % i) if "%d" in head else head
+                content = part % ((i, i, i)[: part.count("%d")])
+                main += h + (incl % i)
+                ind = incl[: len(incl) - len(incl.lstrip(" "))]
+                whole += h + "".join(ind + ln + "\n" for ln in content.rstrip("\n").split("\n")) + incl.split("\n", 1)[1]
+                files.append(("parts/f%d.jst" % i, content))
+            twins.append([("main.jst", main)] + files)
+            twin_wholes.append([("main.jst", whole)])
+    ot = C.run_sharded("harness", "fn", [P.run_line("out=json", p) for p in twins])
+    ow = C.run_sharded("harness", "fn", [P.run_line("out=json", p) for p in twin_wholes])
+    res.count(2 * len(twins))
+    for pj, x, y in zip(twins, ot, ow):
+        sx, dx = P.parse(x)
+        sy, dy = P.parse(y)
+        if sy != "ok":
+            continue
+        if sx != "ok" or dx.get("json") != dy.get("json"):
+            spec_bad.append((pj, "full pipeline: the project with %d included files of one shape gives %s, the spliced single file another catalog" % (len(pj) - 1, sx)))
+        else:
+            res.nontrivial(("twins", pj[0][1]))
     res.notes["project_stage"] = {"cut_sequences": len(projects), "files_per_project": nfiles, "rejection_cases": len(rej),
-                                  "fixture_cuts": len(cut_projects)}
+                                  "fixture_cuts": len(cut_projects), "same_shape_include_families": len(twins)}
     res.sample({"project": [(n, c[:120]) for n, c in projects[len(projects) // 3]]})
     return corr_bad, spec_bad
 
